@@ -23,6 +23,8 @@ claimed = {
              text='All nestings up to depth 3/4 of 12 control constructs around 7 kinds of exit, each with and without a trailing uncaught throw, run on VM and interpreter and compared with the reference evaluator (output, outcome, caught message/position, VM residue).', ref='5/C11'),
  'C14': dict(technique='exhaustive exploration of Go-map iteration orders (choice points injected by the overlay rewriter) and of single-threaded schedules, within a deviation bound',
              text='On a build where every map range is a choice point, all executions of the whole pipeline with <=1/<=2 deviating ranges (rotations of the real order) and all schedules of main core vs polling Wait within delay bound 2/3 must give identical diagnostics, output and outcome; plus repeated rounds in one process.', ref='5/C14'),
+ 'C15': dict(technique='bounded exhaustive enumeration of module graphs (visibility configurations, overlapping names, all subsets of candidate import edges) against a reference linker',
+             text='Every visibility configuration x import subset, every pair of library shapes with overlapping private names, and every subset of 12 import edges over 4 modules (cycles, self imports, missing modules) go through the real analyzer and both backends; verdict and output must equal the reference linker.', ref='5/C15'),
  'C16': dict(technique='explicit enumeration of all host-call histories up to a depth x all schedules within a delay bound, against the reference evaluator',
              text='All histories of SpawnSync calls over a call alphabet up to a depth on one live VM, each under all schedules within the delay bound; per-call results equal the reference model, no residue, failure instead of blocking after a failed call.', ref='5/C16'),
  'C17': dict(technique='stateless DFS over all thread interleavings of the real VM within a delay bound (controlled scheduler over lock/channel/select/sleep/spawn points)',
